@@ -2,7 +2,7 @@
 CONSTANT MaxBN = 1
 CONSTANT MaxVRF = 1
 CONSTANT MaxSlot = 3
-CONSTANT ForkSlots = {0, 1}
+CONSTANT ForkSlots = {0, 2}
 CONSTANT Windows = {0, 2}
 CONSTANT DepthSet = "std"
 CONSTANT TrimShallow = FALSE
